@@ -1,11 +1,14 @@
 SPECIFICATION Spec
 CONSTANTS
   MaxInst = 3
+  MaxExec = 1
+  MaxEmit = 1
   Subs = {"s1", "s2"}
   Dev_BoxKeptAfterRemove = FALSE
   Dev_IdZeroAfterMainRemoved = FALSE
   Dev_TerminateKeepsObjects = TRUE
   Dev_FailedAddLeavesEntry = FALSE
+CONSTRAINT Bounded
 INVARIANTS TypeOK UniqueLiveIds TerminateHookExactlyOnce SubscribersTold NoCrash
 PROPERTIES NoInvocationAfterRemoval NoLateSubscription OthersUnaffected
 CHECK_DEADLOCK FALSE
